@@ -326,6 +326,9 @@ class Spec:
         self.kw_methods = {}              # (type, method, ((keyword, literal term), …)) -> (template over {0}=object,{1}.. positional, result
                                           #   type): a bound method called with these keyword arguments, each a literal (`np.diff(x, axis=1)`)
         # --- binding kinds added for the group SrcImport
+        # --- binding kind added for the group SrcRoman (empty by default)
+        self.const_dicts = {}             # (key type, value type) -> declared type name: a dict literal whose keys are distinct tuples of int
+                                          #   constants (`{(6, 8): 2, (2, 2): 2}`), read as the association list in source order
         self.raising_ifexp = False        # SrcImport's fork admitted `a if c else b` with a branch that can raise only under this flag; since
                                           #   the merge with SrcMask (which admits it always) it only selects that fork's text (no outer parentheses)
 
@@ -351,6 +354,7 @@ class FunTr:
         self.has_fuel = False      # the Lean definition takes `rec_fuel : Nat` (bound on the depth of local recursions)
         self.fuel_name = None      # … under this name: `rec_fuel` (SrcDurOps) or `fuel` (SrcConv), see `call_fun` / `translate_function`
         self.ret_expr = None       # the expression of the `return` statement being translated
+        self.state_param = None    # SrcRoman, entry key `state`: the owned parameter a method mutates; it is returned (see `translate_function`)
 
     def fresh(self, base='t'):
         self.n += 1
@@ -457,6 +461,17 @@ class FunTr:
             if len(cands) != 1:
                 raise Untranslatable(f'dict literal {{{kty_}: {vty_}}}')
             return f'[({k_}, {v_})]', cands[0]
+        if e.keys and self.spec.const_dicts and all(
+                isinstance(k_, ast.Tuple) and k_.elts and all(isinstance(x_, ast.Constant) and type(x_.value) is int for x_ in k_.elts)
+                for k_ in e.keys):
+            # SrcRoman: `{(6, 8): 2, (2, 2): 2}`: distinct tuples of int constants as keys, values of one type; the spec names the type
+            if len({tuple(x_.value for x_ in k_.elts) for k_ in e.keys}) != len(e.keys):
+                raise Untranslatable('dict literal with a repeated key')
+            items = [(self.expr(k_, env, B), self.expr(v_, env, B)) for k_, v_ in zip(e.keys, e.values)]
+            sig = (items[0][0][1], items[0][1][1])
+            if any((k_[1], v_[1]) != sig for k_, v_ in items) or sig not in self.spec.const_dicts:
+                raise Untranslatable(f'dict literal {sig}')
+            return '[' + ', '.join(f'({k_[0]}, {v_[0]})' for k_, v_ in items) + ']', self.spec.const_dicts[sig]
         if e.keys:
             if any(not (isinstance(k_, ast.Constant) and isinstance(k_.value, str)) for k_ in e.keys) \
                     or len({k_.value for k_ in e.keys}) != len(e.keys):
@@ -2442,6 +2457,23 @@ class FunTr:
         if isinstance(s, ast.FunctionDef) and s.name in self.nested and not self.in_loop:
             self.local_function(s)
             return self.block(rest, env, k)
+        if isinstance(s, ast.Expr) and isinstance(s.value, ast.Call) and isinstance(s.value.func, ast.Attribute) \
+                and isinstance(s.value.func.value, ast.Name) and s.value.func.value.id in env and not s.value.keywords \
+                and (env[s.value.func.value.id], s.value.func.attr) in self.spec.funs_by_attr \
+                and self.spec.funs[self.spec.funs_by_attr[(env[s.value.func.value.id], s.value.func.attr)]].get('state'):
+            # SrcRoman: `x.m(args)` as a statement, `m` a translated method with the entry key `state` on its receiver and no result
+            # of its own: Python evaluates the arguments, then the call mutates `x`; the image rebinds `x` to the object returned.
+            # `x` must be an object this function owns (a fresh local or an `owned` parameter), so no other name sees the change.
+            x = s.value.func.value.id
+            f = self.spec.funs[self.spec.funs_by_attr[(env[x], s.value.func.attr)]]
+            if f['state'] != f['params'][0][0] or lean_ty(f['ret']) != lean_ty(env[x]):
+                raise Untranslatable(f'statement call of {s.value.func.attr}: result {f["ret"]} at line {s.lineno}')
+            if ident(x) not in self.fresh_vars(env):
+                raise Untranslatable(f'{s.value.func.attr} mutates `{x}`, which may alias an operand, at line {s.lineno}')
+            B = []
+            args = [self.expr(a, env, B) for a in s.value.args]
+            r, _ = self.call_fun(self.spec.funs_by_attr[(env[x], s.value.func.attr)], [(ident(x), env[x])] + args, B)
+            return self.wrap(B, ('let', ident(x), lean_ty(env[x]), r, self.block(rest, env, k)))
         if isinstance(s, ast.Assign) and len(s.targets) == 1 and isinstance(s.targets[0], ast.Subscript) \
                 and self.store_target(s.targets[0], env) is not None:
             # `m.notes[i] = v` on a list no other name refers to: the value first, then the index, then the store (IndexError)
@@ -2538,6 +2570,10 @@ class FunTr:
             B = []
             self.check_owned_call(s, rest, env)
             t, ty = self.expr(s.value, env, B)
+            if isinstance(s.value, ast.Tuple) and self.last_tuple and self.last_tuple[0] == t \
+                    and any(pty_ == 'None' for _, pty_ in self.last_tuple[1]):
+                # SrcRoman: `a, b = x, None`: the component of type None is Lean's `()` (as in `b = None`; it was `none : Unit` before)
+                t = '(' + ', '.join('()' if pty_ == 'None' else pt_ for pt_, pty_ in self.last_tuple[1]) + ')'
             comps = split_prod(ty)
             names = [x.id for x in s.targets[0].elts]
             if len(comps) == 1 and len(names) > 1 and strip_outer(ty) != ty:
@@ -3040,6 +3076,18 @@ class FunTr:
         if isinstance(s, ast.Return):
             if self.in_loop:
                 raise Untranslatable(f'return inside a loop at line {s.lineno}')
+            if self.state_param is not None:
+                # SrcRoman (entry key `state`): the object the method mutates is part of the result: a bare `return` gives it back,
+                # `return e` gives the pair (e, object)
+                st_ = self.state_param
+                if s.value is None:
+                    return ('ret', self.coerce_ret(ident(st_), env[st_]))
+                comps = split_prod(self.ret)
+                if len(comps) != 2 or lean_ty(comps[1]) != lean_ty(env[st_]):
+                    raise Untranslatable(f'return of a value from a method with state {st_}: result type {self.ret}')
+                B = []
+                t, ty = self.expr(s.value, env, B)
+                return self.wrap(B, ('ret', f'({self.coerce(t, ty, comps[0], "return")}, {ident(st_)})'))
             if s.value is None:
                 return ('ret', self.coerce_ret('none', 'None'))
             B = []
@@ -3181,6 +3229,8 @@ def translate_function(spec, entry):
       list_rows=True                    SrcImport: a list display with items of several types is a row (a tuple)
       fuel=True                         the function reaches one of the two kinds of recursion: it takes the bound as first argument and
                                         passes it on (named as the first such callee names it: `rec_fuel` or `fuel`)
+      state=param                       SrcRoman: an owned parameter the method mutates; the definition returns it (a method without a
+                                        result: the object; `return e`: the pair (e, object)); `x.m(…)` as a statement rebinds `x`
       join_ifs, fold, typed_ops, binop, rbinop    see `FunTr`"""
     fd, src = get_source_ast(entry['py'])
     argnames = [a.arg for a in fd.args.args]
@@ -3206,6 +3256,12 @@ def translate_function(spec, entry):
     tr.nested = dict(entry.get('nested', {}))
     tr.has_fuel = bool(entry.get('fuel') or entry.get('recursive'))
     tr.fuel_name = 'fuel' if entry.get('recursive') else None
+    if entry.get('state') is not None:
+        # SrcRoman: a method that mutates its (owned) parameter `state` and returns nothing / something else: the Lean definition
+        # returns the object as it is at the `return` (alone when the method returns nothing, as the second component otherwise)
+        if entry['state'] not in entry.get('owned', []):
+            raise Untranslatable(f'{entry["py"]}: the state parameter {entry["state"]} must be owned')
+        tr.state_param = entry['state']
     if tr.has_fuel or tr.nested:
         if any(p in ('rec_fuel', 'fuel') for p in argnames):
             raise Untranslatable('a parameter named rec_fuel / fuel')
@@ -3293,7 +3349,11 @@ def _translate_function(spec, entry, tr, fd, params):
         else:
             setattr(spec, attr_, upd)
     try:
-        tree = tr.block(list(fd.body), env)
+        k_end = None
+        if tr.state_param is not None:
+            k_end = lambda env_: ('ret', tr.coerce_ret(ident(tr.state_param), env_[tr.state_param])) if len(split_prod(tr.ret)) == 1 \
+                else ('ret', f'({tr.coerce("none", "None", split_prod(tr.ret)[0], "return")}, {ident(tr.state_param)})')
+        tree = tr.block(list(fd.body), env, k_end) if k_end is not None else tr.block(list(fd.body), env)
     finally:
         for attr_, old in saved.items():
             cur = getattr(spec, attr_)
@@ -3341,6 +3401,8 @@ def _translate_function(spec, entry, tr, fd, params):
     info = {'lean': entry['lean'], 'params': params, 'ret': entry['ret'], 'pure': pure, 'defaults': defaults}
     if owned:
         info['owned'] = tuple(owned)
+    if entry.get('state') is not None:
+        info['state'] = entry['state']
     if getattr(tr, 'item_stores', None):
         info['item_stores'] = tuple(sorted(tr.item_stores))     # (parameter, attribute) pairs stored through items (`FunTr.check_owned`)
     if entry.get('fixed'):
